@@ -50,6 +50,9 @@ def strategy(tier):
             step['qmode'] = draw(st.integers(0, 4))
             step['qsel'] = draw(st.integers(0, 1 << 20))
 
+            if step['op'] in em.NODE_OPS and draw(st.integers(0, 6)) == 0:
+                step['op'] = draw(st.sampled_from(em.PAR_OPS))  # par() / unpar(): edits too, and they touch the source without going through a put
+
         return case
 
     return strat()
@@ -178,6 +181,36 @@ def compare_with_fresh(root, ap, cached, ctx):
             invalidated = any(c[k] != oa[k] for k in c if k in oa)
 
     return invalidated
+
+
+PAR_TEMPLATES = ('x = a if(b)else c', 'y = (a)+(b) * ((c))', 'z = [(a), (b,), ((c, d))]', 'f((a), k=(v))', 'w = not(p)and(q)', 'for(i)in(j): pass', 'r = (a,\n     b)', 'del(a), (b)',
+                 'with(a)as(b): pass', 'r = x[(i)]', 'r = {(k): (v)}', 'assert(a), (b)', 'r = lambda: (y)', 'r = (yield(a))', 'r = -(a) ** (b)', 'match(s):\n    case(1): pass',
+                 'r = a if b else(c)', 'r = [i for(i)in(j)if(k)]', "r = f'{(a)}'", 'r = (a)if(b)else(c)if(d)else(e)')
+
+
+def enumerate_cases(tier, shard, nshards, seed):
+    """Every node of the parenthesis templates x {par, par(force), unpar, unpar(node)} with every query mode beforehand, then a second edit
+    (replace by a name) on every node: stale parenthesis extents show when the next query or edit uses them."""
+
+    k = 0
+
+    for src in PAR_TEMPLATES:
+        try:
+            n = len(em.node_targets(ast.parse(src)))
+        except SyntaxError:
+            continue
+
+        for ti in range(n):
+            for op in em.PAR_OPS:
+                for qmode in (1, 4):
+                    k += 1
+
+                    if k % nshards != shard:
+                        continue
+
+                    base = {'tsel': ti, 'form': 'src', 'dsel': 0, 'opts': {}, 'anycat': False, 'layout': [], 'qsel': 0}
+
+                    yield {'src': src, 'steps': [{**base, 'op': op, 'qmode': qmode}, {**base, 'op': 'replace', 'qmode': qmode}], 'grid': True}
 
 
 def execute(case, ctx):
